@@ -9,7 +9,20 @@ use std::collections::BTreeMap;
 use std::rc::Rc;
 
 /// fresh keywords (checked against the reserved vocabulary at start-up)
-pub const KEYWORDS: [&str; 8] = ["frob", "zork", "wibble", "quux", "plugh", "xyzzy", "grault", "corge"];
+/// keywords of rule patterns: eight fresh words, plus two slots that stand for an OPERATOR WORD of the rule's own
+/// language (`times` / `kere` -> '*', `minus` / `eksi` -> '-'): a pattern is tokenised in the language it is
+/// registered for, so such a word is an operator token in the pattern and in the line alike
+pub const KEYWORDS: [&str; 10] = ["frob", "zork", "wibble", "quux", "plugh", "xyzzy", "grault", "corge", "@mul", "@sub"];
+
+pub fn keyword(i: u8, lang: &str) -> &'static str {
+    match (KEYWORDS[i as usize % KEYWORDS.len()], lang) {
+        ("@mul", "tr") => "kere",
+        ("@mul", _) => "times",
+        ("@sub", "tr") => "eksi",
+        ("@sub", _) => "minus",
+        (w, _) => w,
+    }
+}
 pub const RULE_NAMES: [&str; 4] = ["alpha", "beta", "gamma", "delta"];
 pub const UNIT_NAMES: [&str; 10] = ["zib", "zob", "blarg", "flurb", "snork", "glorp", "wumpus", "thud", "garply", "fred"];
 pub const FAMILY_NAMES: [&str; 3] = ["widgets", "gizmos", "doodads"];
@@ -42,9 +55,9 @@ impl Pattern {
             Field::Text => format!("{{TEXT:{}}}", name),
         }
     }
-    pub fn text(&self) -> String {
-        let kw = KEYWORDS[self.kw as usize % KEYWORDS.len()];
-        let kw2 = KEYWORDS[self.kw2 as usize % KEYWORDS.len()];
+    pub fn text(&self, lang: &str) -> String {
+        let kw = keyword(self.kw, lang);
+        let kw2 = keyword(self.kw2, lang);
         let n = Pattern::field(&self.n, "n");
         let k = "{NUMBER:k}";
         match self.layout % 4 {
@@ -55,9 +68,9 @@ impl Pattern {
         }
     }
     /// a line matching the pattern with the given field values
-    pub fn line(&self, nv: u32, kv: u32) -> String {
-        let kw = KEYWORDS[self.kw as usize % KEYWORDS.len()];
-        let kw2 = KEYWORDS[self.kw2 as usize % KEYWORDS.len()];
+    pub fn line(&self, lang: &str, nv: u32, kv: u32) -> String {
+        let kw = keyword(self.kw, lang);
+        let kw2 = keyword(self.kw2, lang);
         let n = match self.n {
             Field::Number => format!("{}", nv),
             Field::Percent => format!("{}%", nv),
@@ -185,7 +198,7 @@ fn lang_of(l: u8) -> &'static str {
 
 fn register_rule(calc: &mut SmartCalc, lang: &str, spec: &RuleSpec) -> Result<bool, String> {
     let rule: Rc<dyn RuleTrait> = Rc::new(GenRule { spec: spec.clone() });
-    let patterns: Vec<String> = spec.patterns.iter().map(|p| p.text()).collect();
+    let patterns: Vec<String> = spec.patterns.iter().map(|p| p.text(lang)).collect();
     guarded(|| calc.add_rule(lang.to_string(), patterns, rule)).map_err(|p| format!("add_rule panicked at {}: {}", p.site, p.message))
 }
 
@@ -274,8 +287,8 @@ impl Prop for Registry {
             };
             let mut panel: Vec<(String, String)> = BUILTIN_PANEL.iter().map(|s| ("en".to_string(), s.to_string())).collect();
             for (lang, p) in &m.patterns_seen {
-                panel.push((lang.clone(), p.line(6, 4)));
-                panel.push((lang.clone(), p.line(7, 1)));
+                panel.push((lang.clone(), p.line(lang, 6, 4)));
+                panel.push((lang.clone(), p.line(lang, 7, 1)));
             }
             for it in &m.items {
                 let u = UNIT_NAMES[it.unit as usize % UNIT_NAMES.len()];
@@ -310,7 +323,7 @@ impl Prop for Registry {
             match op {
                 Op::AddRule(l, spec) => {
                     let lang = lang_of(*l);
-                    rendered.push_str(&format!("add_rule({}, {:?}, {} {:?}); ", lang, spec.patterns.iter().map(|p| p.text()).collect::<Vec<_>>(), RULE_NAMES[spec.name as usize % 4], spec.behaviour));
+                    rendered.push_str(&format!("add_rule({}, {:?}, {} {:?}); ", lang, spec.patterns.iter().map(|p| p.text(&lang)).collect::<Vec<_>>(), RULE_NAMES[spec.name as usize % 4], spec.behaviour));
                     let got = match register_rule(&mut calc, lang, spec) {
                         Ok(b) => b,
                         Err(e) => {
@@ -419,7 +432,7 @@ impl Prop for Registry {
                         continue;
                     }
                     let (lang, p) = m.patterns_seen[*i as usize % m.patterns_seen.len()].clone();
-                    let line = p.line(*nv, *kv);
+                    let line = p.line(&lang, *nv, *kv);
                     rendered.push_str(&format!("[{}] {:?}; ", lang, line));
                     w.count_eval(2);
                     let got = match eval_on(&calc, &lang, &line) {
@@ -437,9 +450,9 @@ impl Prop for Registry {
                     // line exactly as on a calculator without any rule
                     // every live pattern of that language that shares a keyword with the probe's pattern
                     let kws = |q: &Pattern| -> Vec<u8> {
-                        let mut v = vec![q.kw % 8];
+                        let mut v = vec![q.kw % KEYWORDS.len() as u8];
                         if q.has_k() && q.layout % 4 == 3 {
-                            v.push(q.kw2 % 8);
+                            v.push(q.kw2 % KEYWORDS.len() as u8);
                         }
                         v
                     };
@@ -547,7 +560,7 @@ impl Prop for Registry {
 // ---- strategies --------------------------------------------------------------------------------
 
 pub fn pattern_strategy() -> impl Strategy<Value = Pattern> {
-    (0u8..8, 0u8..4, prop_oneof![5 => Just(Field::Number), 1 => Just(Field::Percent), 1 => Just(Field::Money), 1 => Just(Field::Text)], 0u8..8).prop_map(|(kw, layout, n, kw2)| Pattern { kw, layout, n, kw2: if kw2 == kw { (kw2 + 1) % 8 } else { kw2 } })
+    (0u8..10, 0u8..4, prop_oneof![5 => Just(Field::Number), 1 => Just(Field::Percent), 1 => Just(Field::Money), 1 => Just(Field::Text)], 0u8..8).prop_map(|(kw, layout, n, kw2)| Pattern { kw, layout, n, kw2: if kw2 == kw { (kw2 + 1) % 8 } else { kw2 } })
 }
 
 pub fn rule_strategy() -> impl Strategy<Value = RuleSpec> {
@@ -653,7 +666,7 @@ pub fn self_check() {
 
 pub fn run(ctx: &Ctx) {
     self_check();
-    ctx.rule("call histories of 1-14 operations on one calculator: add_rule(en|tr|unknown language, 1-3 patterns of fresh keywords and typed fields {NUMBER:n} {PERCENT:n} {MONEY:n} {TEXT:n} {NUMBER:k}, behaviour computed from the NAMED fields: decline always / decline when n is odd / Number(c+2n+3k) / Money / Percent / Duration), delete_rule (existing, never registered, already deleted, unknown language; names from a pool of four so that duplicates occur), add_dynamic_type, add_dynamic_type_item (fresh / duplicate index / unknown family, integer link factors; families whose lowest index is 0, 1 or 3), probe evaluations of registered and deleted patterns, family conversions; oracle: return values against a model (add_rule false iff unknown language, delete_rule true iff a live rule of that name exists, removing the first; add_dynamic_type false iff the name exists; add_dynamic_type_item false iff the family is unknown or the index taken); effect: a line matched by exactly one live rule evaluates to what its behaviour computes, a declining rule or no rule leaves the line as on a plain calculator; conversions = product of the declared link factors; and after every deletion and at the end: a panel of probe lines (every registered and deleted pattern, six built-in sentences, every pair of family items, cross-family lines) evaluates identically on the long-lived calculator and on a fresh one on which only the surviving registrations were replayed in order; non-trivial = a deletion followed by a probe of the deleted rule's pattern, two rules of equal name, or a rejected duplicate followed by a conversion");
+    ctx.rule("call histories of 1-14 operations on one calculator: add_rule(en|tr|unknown language, 1-3 patterns of fresh keywords - or an operator word of the rule's own language (times/minus, kere/eksi) - and typed fields {NUMBER:n} {PERCENT:n} {MONEY:n} {TEXT:n} {NUMBER:k}, behaviour computed from the NAMED fields: decline always / decline when n is odd / Number(c+2n+3k) / Money / Percent / Duration), delete_rule (existing, never registered, already deleted, unknown language; names from a pool of four so that duplicates occur), add_dynamic_type, add_dynamic_type_item (fresh / duplicate index / unknown family, integer link factors; families whose lowest index is 0, 1 or 3), probe evaluations of registered and deleted patterns, family conversions; oracle: return values against a model (add_rule false iff unknown language, delete_rule true iff a live rule of that name exists, removing the first; add_dynamic_type false iff the name exists; add_dynamic_type_item false iff the family is unknown or the index taken); effect: a line matched by exactly one live rule evaluates to what its behaviour computes, a declining rule or no rule leaves the line as on a plain calculator; conversions = product of the declared link factors; and after every deletion and at the end: a panel of probe lines (every registered and deleted pattern, six built-in sentences, every pair of family items, cross-family lines) evaluates identically on the long-lived calculator and on a fresh one on which only the surviving registrations were replayed in order; non-trivial = a deletion followed by a probe of the deleted rule's pattern, two rules of equal name, or a rejected duplicate followed by a conversion");
     ctx.assume("patterns consist of a fresh keyword plus typed fields (>= 2 tokens, the result cannot match again); unit items have fresh names, contiguous indices are needed for a conversion to be asserted");
     ctx.run_table(&Registry, "regressions", regressions(), false);
     let max = match ctx.tier {
